@@ -10,7 +10,7 @@ from harness import core
 from harness.core import Outcome
 
 ID = "C20"
-LEAN_TARGETS = ["BeyondVerif.Props.C20", "BeyondVerif.Props.C20Forest", "BeyondVerif.Witness.C20"]
+LEAN_TARGETS = ["BeyondVerif.Props.C20", "BeyondVerif.Props.C20Forest", "BeyondVerif.Props.C20Registry", "BeyondVerif.Witness.C20"]
 THEOREMS = [
     "BeyondVerif.C20.path_valid_chain",
     "BeyondVerif.C20.nbrs_iff_linked",
@@ -28,7 +28,18 @@ THEOREMS = [
     "BeyondVerif.C20.forest_routingExact",
     "BeyondVerif.C20.new_registration_preserves",
     "BeyondVerif.Node.refreshRoutes_spec",
+    "BeyondVerif.C20.named_model_is_node_model",
+    "BeyondVerif.C20.named_path_valid_chain",
+    "BeyondVerif.C20.applyOps_spec",
+    "BeyondVerif.C20.registered_run",
+    "BeyondVerif.C20.convert_resolves",
+    "BeyondVerif.C20.convert_never_unknown_transformation",
+    "BeyondVerif.C20.fresh_names_keep_methods",
+    "BeyondVerif.C20.sites_register_root",
+    "BeyondVerif.C20.builtin_links_have_methods",
     "BeyondVerif.C20W.pentagon_not_shortest",
+    "BeyondVerif.C20W.topo_ctor_alone_unresolvable",
+    "BeyondVerif.C20W.subclass_registration_unresolvable",
 ]
 LEVEL_TEXT = ("Lean theorems over the routing model: for every insertion history (any graph, order, orientation) each returned path is a chain of "
               "inserted links from source to goal (path_valid_chain); for EVERY forest history of any size (each link joins two components; any order, "
@@ -265,7 +276,138 @@ def correspondence(ctx):
         out.count(key="live-" + name, kind="live-" + name)
         if exp != m:
             out.fail("node-live", f"live {name} graph tables differ from the model run on the recorded history", name, observed=exp, expected=m)
+    correspondence_named(ctx, out)
+    correspondence_registry(ctx, out)
     return out
+
+
+def random_names(rng, n):
+    """names for n nodes, some of them shared"""
+    names = []
+    for _ in range(n):
+        if names and rng.random() < 0.4:
+            names.append(rng.choice(names))
+        else:
+            names.append(max(names, default=-1) + 1)
+    return names
+
+
+def named_cases(ctx, rng, quick_n, thorough_n):
+    cases = []
+    # exhaustive: every name assignment on 3 nodes x every forest history; on 4 nodes every assignment x a slice of the histories
+    for names in itertools.product(range(3), repeat=3):
+        for h in forest_histories(3):
+            cases.append((list(names), h, "named-exhaustive-3"))
+    h4 = list(forest_histories(4))
+    for names in itertools.product(range(3), repeat=4):
+        if len(set(names)) == 4:
+            continue
+        for h in (h4 if ctx.thorough else rng.sample(h4, 6)):
+            cases.append((list(names), h, "named-exhaustive-4"))
+    for _ in range(ctx.n(quick_n, thorough_n)):
+        n = rng.randint(4, 12)
+        names = random_names(rng, n)
+        r = rng.random()
+        h = random_tree_history(rng, n) if r < 0.4 else (random_forest(rng, n) if r < 0.8 else random_graph(rng, min(n, 8)))
+        if r >= 0.8:
+            names = names[:min(n, 8)]
+        if rng.random() < 0.2 and h:
+            h = h + [rng.choice(h)]          # a link executed twice (create_station links the orientation twice)
+        cases.append((names, h, "named-random"))
+    # the shapes of the real registries: a root with same-named children having sub-trees (Earth / Earth / Earth)
+    for _ in range(ctx.n(60, 600)):
+        k = rng.randint(2, 4)
+        names, h = [0], []
+        for _c in range(k):
+            names.append(0 if rng.random() < 0.7 else 1)
+            child = len(names) - 1
+            sub = []
+            for _s in range(rng.randint(0, 3)):
+                names.append(rng.randint(2, 5))
+                sub.append((len(names) - 1, rng.choice([child] + [x for x, _ in sub])))
+            grp = [(child, 0) if rng.random() < 0.5 else (0, child)] + [(a, b) if rng.random() < 0.5 else (b, a) for a, b in sub]
+            if rng.random() < 0.5:
+                rng.shuffle(grp)
+            h += grp
+        cases.append((names, h, "named-same-name-children"))
+    return cases
+
+
+def correspondence_named(ctx, out):
+    """Model/Registry.lean (named routing) vs real Node objects several of which carry one name"""
+    from harness import c20_registry as R
+    cases = named_cases(ctx, ctx.rng, 400, 6000)
+    model = core.Driver().run([R.named_line(nm, h) for nm, h, _ in cases])
+    for (names, h, kind), m in zip(cases, model):
+        real = R.real_named_dump(names, h)
+        out.count(key=("named", tuple(names), tuple(h)), nontrivial=len(h) >= 2 and len(set(names)) < len(names), kind=kind)
+        if real != m:
+            out.fail("named-node-tables", "routing tables / paths of nodes sharing names differ between Model/Registry.lean and beyond.utils.node",
+                     {"names": names, "hist": h}, observed=real, expected=m)
+        out.sample({"line": R.named_line(names, h), "reply": m[:160]}, limit=4)
+
+
+ORIENT_MRO = {0: [0], 1: [1, 0], 2: [2, 0], 3: [3, 0], 4: [4, 0], 5: [5, 4, 0]}
+CENTER_MRO = {0: [0], 1: [1, 0], 2: [2, 0]}
+
+
+def registry_scenarios(ctx, rng, labels, quick_n, thorough_n):
+    from harness import c20_registry as R
+    sc = []
+    S = {lab: i for i, lab in enumerate(labels)}
+    # fixed: every driven site once below a plain parent and once below a parent of a subclass, queried from everywhere
+    k = 0
+    for site, cls in (("TopocentricOrientation.__init__", 1), ("create_station[orient]", 1), ("LocalOrbitalOrientation.__init__", 2),
+                      ("orbit2frame[orient]", 2), ("LagrangeOrient.__init__", 3), ("lagrange[orient]", 3)):
+        for pcls in (0, 4, 5, 3, 1):
+            if pcls == 0:
+                names, classes, ops = [0, 1, 2], [0, 0, cls], [f"A:c0:1:0:1", "L:0:1", f"S:{S[site]}:2:1:0"]
+            elif pcls in (4, 5):
+                names, classes, ops = [0, 1, 2], [0, pcls, cls], [f"A:c0:1:0:1", "L:0:1", f"S:{S[site]}:2:1:0"]
+            elif pcls == 3:
+                names, classes, ops = [0, 1, 2], [0, 3, cls], [f"S:{S['LagrangeOrient.__init__']}:1:0:0", f"S:{S[site]}:2:1:0"]
+            else:
+                names, classes, ops = [0, 1, 2], [0, 1, cls], [f"S:{S['create_station[orient]']}:1:0:0", f"S:{S[site]}:2:1:0"]
+            sc.append({"world": "orient", "tag": f"F{k}", "names": names, "classes": classes, "mro": ORIENT_MRO, "ops": ops, "kind": "reg-fixed-orient"})
+            k += 1
+    for site, cls in (("Center.add_link", 0), ("Center.add_link", 2), ("JplCenter.add_link", 1), ("create_station[center]", 0), ("orbit2frame[center]", 0)):
+        for pcls in (0, 1, 2):
+            sc.append({"world": "center", "tag": f"F{k}", "names": [0, 1, 2, 1], "classes": [0, pcls, cls, 0], "mro": CENTER_MRO,
+                       "ops": [f"S:{S['JplCenter.add_link'] if pcls == 1 else S['Center.add_link']}:1:0:0", f"S:{S[site]}:2:1:0", f"S:{S['Center.add_link']}:3:0:0"],
+                       "kind": "reg-fixed-center"})
+            k += 1
+    for i in range(ctx.n(quick_n, thorough_n)):
+        w = "orient" if i % 3 else "center"
+        x = R.random_reg_scenario(rng, w, labels, ORIENT_MRO if w == "orient" else CENTER_MRO, f"{k}")
+        x["kind"] = "reg-random-" + w
+        sc.append(x)
+        k += 1
+    return sc
+
+
+def correspondence_registry(ctx, out):
+    """Model/Registry.lean (method table, lookup through the class hierarchy, convert_to) vs the real Orientation / Center
+    classes and subclasses, driven through the registration sites of the code and raw `+` / setattr"""
+    from harness import c20_registry as R
+    labels = core.Driver().run(["sites"])[0].split(";")
+    want = list(getattr(ctx, "sites", {}) or labels)
+    if labels != want:
+        out.fail("registry-sites", "registration sites compiled into the driver differ from the ones extracted from the source", want, observed=labels)
+        return
+    sc = registry_scenarios(ctx, ctx.rng, labels, 250, 4000)
+    model = core.Driver().run([R.reg_line(x) for x in sc])
+    real, why = R.forked(R.real_reg_dumps, sc, labels, time_limit=ctx.n(120, 600))
+    if real is None:
+        out.fail("registry-real-side", "the real classes could not be driven through the scenarios within the time/memory bound", {"n": len(sc)}, observed=why)
+        return
+    for x, m, r in zip(sc, model, real):
+        shared = len(set(x["names"])) < len(x["names"])
+        out.count(key=("reg", x["world"], tuple(x["names"]), tuple(x["classes"]), tuple(x["ops"])), kind=x["kind"], shared_names=shared,
+                  unresolved="UT:" in m)
+        if r != m:
+            out.fail("registry-convert", "method resolution of convert_to (which object's <a>_to_<b> method each step uses / Unknown transformation) differs "
+                     "between Model/Registry.lean and the real classes", {k: x[k] for k in ("world", "names", "classes", "ops")}, observed=r, expected=m)
+        out.sample({"line": R.reg_line(x), "reply": m[:200]}, limit=6)
 
 
 def live_builtin_tables():
@@ -522,6 +664,72 @@ def check_nested_and_body_frames(out, rng, rounds):
             attempt("lof-body-parent", "an unrelated pre-existing frame (ITRF) cannot reach the new frame", lambda: lro.copy(frame="ITRF").copy(frame=lname)[:3], np.zeros(3), 1e-3)
 
 
+def check_named_history(out, names, hist, kind):
+    """nodes sharing names: from every node, every NAME carried by a connected node is reached along existing links (the
+    nearest such node when the links form a forest), every other name is reported unknown; the walk is step-bounded"""
+    from harness import c20_registry as R
+    from beyond.utils.node import Node
+    n = len(names)
+    nodes = [Node(str(x)) for x in names]
+    for a, b in hist:
+        nodes[a] + nodes[b]
+    idx = {id(x): i for i, x in enumerate(nodes)}
+    linked = {frozenset(e) for e in hist}
+    forest = _is_forest(n, hist)
+    inp = {"names": list(names), "hist": [list(e) for e in hist]}
+    for s in range(n):
+        d = bfs(n, hist, s)
+        for goal in sorted(set(names)):
+            if names[s] == goal:
+                continue
+            st, p = R.bounded_walk(nodes[s], str(goal), n + 2)
+            cands = [d[v] for v in d if names[v] == goal]
+            where = dict(inp, s=s, goal=goal)
+            if not cands:
+                if st != "U":
+                    out.fail("named-unconnected-not-reported", "name carried by no connected node is not reported as unknown", where, observed=st, expected="U")
+                continue
+            if st != "ok":
+                what = {"L": "routing loop (Node.path would not terminate)", "U": "connected name reported as Unknown", "K": "route breaks at an intermediate node"}[st]
+                out.fail("named-connected-no-route:" + st, what + " although a node of that name is connected", where,
+                         observed=[idx[id(x)] for x in p][:12], expected=f"a chain of {min(cands)} links")
+                continue
+            p = [idx[id(x)] for x in nodes[s].path(str(goal))]
+            if not (p[0] == s and names[p[-1]] == goal and all(frozenset((p[i], p[i + 1])) in linked for i in range(len(p) - 1))):
+                out.fail("named-invalid-chain", "returned path is not a chain of existing links ending at a node of the goal name", where, observed=p)
+            elif forest and len(p) - 1 != min(cands):
+                out.fail("named-forest-not-nearest", "in a forest the path does not lead to the nearest node of that name", where, observed=p, expected=f"{min(cands)} steps")
+    out.count(key=("named", tuple(names), tuple(map(tuple, hist))), nontrivial=len(hist) >= 2 and len(set(names)) < n, kind=kind)
+
+
+def check_registry_scenarios(out, ctx, rng, big):
+    """histories on the REAL frame registry (beyond.frames, beyond.env.solarsystem, beyond.env.jpl with tests/data/jpl,
+    beyond.frames.lagrange), each in a forked child under a step / time / memory bound: harness/c20_registry.py"""
+    from harness import c20_registry as R
+    scen = [(nm, ops, "registry-fixed") for nm, ops in R.fixed_scenarios()]
+    scen.append(R.topo_direct_scenario() + ("registry-known",))
+    for i in range(60 if big else 8):
+        scen.append((f"random{i}", R.random_scenario(rng, rng.randint(4, 12 if big else 9)), "registry-random"))
+    tot = {}
+    for nm, ops, kind in scen:
+        res = R.run_forked(ops, {"max_pairs": 60 if big else 40}, time_limit=60.0 if big else 25.0)
+        if res.get("error"):
+            raise RuntimeError(f"registry scenario {nm}: {res['error']} {res.get('tb', '')}")
+        c = res.get("counts", {})
+        for k, v in c.items():
+            tot[k] = tot.get(k, 0) + v
+        out.count(key=("registry", nm, json.dumps(ops, sort_keys=True)), kind=kind)
+        out.cases += c.get("conversions", 0) + c.get("route_walks", 0)
+        seen = set()
+        for f in res["fails"]:
+            if f["family"] in seen:
+                continue
+            seen.add(f["family"])
+            out.fail(f["family"], f["what"], {"registry_scenario": ops, "name": nm, "detail": f["detail"]}, observed=f["detail"])
+    out.notes.append("real-registry scenarios: " + ", ".join(f"{k}={v}" for k, v in sorted(tot.items())))
+    out.sample({"registry_scenario": scen[0][1][:3], "checked": "bounded route sweep by identity, link-method resolvability from every start object, all pairs convert, unchanged by new names"})
+
+
 def oracle(ctx, widened):
     out = Outcome()
     rng = ctx.rng
@@ -556,6 +764,9 @@ def oracle(ctx, widened):
     for _ in range(2000 if big else 300):
         n = rng.randint(2, 12)
         check_new_registration(out, rng, n, random_forest(rng, n))
+    for names, h, kind in named_cases(ctx, rng, 3000 if big else 300, 3000):
+        check_named_history(out, names, h, kind)
+    check_registry_scenarios(out, ctx, rng, big)
     check_frame_registry(out, rng, 12 if big else 5)
     check_nested_and_body_frames(out, rng, 6 if big else 2)
     out.sample({"history": [(0, 1), (1, 2), (3, 2)], "checked": "all pairs: valid simple chain == BFS distance, unconnected -> ValueError"})
@@ -565,6 +776,15 @@ def oracle(ctx, widened):
 def replay(f):
     out = Outcome()
     i = f["input"]
-    if "hist" in i:
+    if "registry_scenario" in i:
+        from harness import c20_registry as R
+        res = R.run_forked(i["registry_scenario"], time_limit=60.0)
+        for x in res["fails"]:
+            if x["family"] == f["family"]:
+                out.fail(x["family"], x["what"], i, observed=x["detail"])
+                break
+    elif "names" in i:
+        check_named_history(out, i["names"], [tuple(e) for e in i["hist"]], "replay")
+    elif "hist" in i:
         check_history(out, i["n"], [tuple(e) for e in i["hist"]], "replay")
     return out
